@@ -142,8 +142,7 @@ Section Proofs.
     set (v := if 0 <? 8 * Z.of_nat hlen - bln then Z.shiftr z (8 * Z.of_nat hlen - bln) else z).
     assert (Hv : v = if bln <? 8 * Z.of_nat hlen then z / 2 ^ (8 * Z.of_nat hlen - bln) else z).
     { subst v. destruct (0 <? 8 * Z.of_nat hlen - bln) eqn:E1, (bln <? 8 * Z.of_nat hlen) eqn:E2; try lia.
-      - apply Z.shiftr_div_pow2. lia.
-      - reflexivity. }
+      apply Z.shiftr_div_pow2. lia. }
     rewrite <- Hv.
     assert (Hvr : 0 <= v < 2 ^ bln).
     { rewrite Hv. rewrite pow256_2 in Hz by lia. destruct (bln <? 8 * Z.of_nat hlen) eqn:E.
@@ -154,7 +153,7 @@ Section Proofs.
     assert (H2 : 2 ^ bln = 2 * 2 ^ (bln - 1)).
     { rewrite <- Z.pow_succ_r by lia. f_equal. lia. }
     destruct (n <=? v) eqn:E.
-    - split; [|lia]. symmetry. apply (Z.mod_unique_pos _ _ 1); lia.
+    - split; [|lia]. apply (Z.mod_unique_pos _ _ 1); lia.
     - split; [|lia]. symmetry. apply Z.mod_small. lia.
   Qed.
 
@@ -175,14 +174,20 @@ Section Proofs.
 
   (* fuel of loop 2 suffices as soon as HMAC outputs have a fixed non-zero length *)
   Lemma spec_T_fuel (Hh : forall k m, length (hmac k m) = hlen) (Hl : (0 < hlen)%nat) :
-    forall fuel k v t, (osz < fuel + length t)%nat -> spec_T hmac n fuel k v t <> None.
+    forall fuel k v t, (1 <= fuel)%nat -> (osz < fuel + length t)%nat -> spec_T hmac n fuel k v t <> None.
   Proof.
-    induction fuel as [|f IH]; intros k v t Hf; cbn [spec_T].
-    - pose proof osz_spec. unfold qlen. fold bln.
-      (* fuel 0 is only reached when t is already long enough; spec_T 0 = None though: exclude *)
-      lia.
-    - destruct (8 * Z.of_nat (length t) <? qlen n); [|discriminate].
-      apply IH. rewrite app_length, Hh. lia.
+    induction fuel as [|f IH]; intros k v t H1 Hf; cbn [spec_T]; [lia|].
+    destruct (8 * Z.of_nat (length t) <? qlen n) eqn:E; [|discriminate].
+    assert (length t < osz)%nat by (unfold qlen in E; fold bln in E; pose proof osz_spec; lia).
+    apply IH; [lia|]. rewrite app_length, Hh. lia.
+  Qed.
+
+  (* hence the model's inner loop never runs out of its S order_size fuel *)
+  Lemma gen_t_fuel (Hh : forall k m, length (hmac k m) = hlen) (Hl : (0 < hlen)%nat) k v :
+    gen_t hmac (S osz) osz k v [] <> OutOfFuel.
+  Proof.
+    rewrite gen_t_spec. pose proof (spec_T_fuel Hh Hl (S osz) k v [] ltac:(lia) ltac:(cbn; lia)) as H.
+    destruct (spec_T hmac n (S osz) k v []); [discriminate|congruence].
   Qed.
 End Proofs.
 
@@ -193,6 +198,12 @@ Proof.
   intros Ha Hb H. apply (f_equal octets_to_int) in H. rewrite !octets_int_roundtrip in H by assumption. exact H.
 Qed.
 
+Lemma app_same_length_inj {A} : forall (a c b d : list A), length a = length c -> a ++ b = c ++ d -> a = c /\ b = d.
+Proof.
+  induction a as [|x a IH]; intros [|y c] b d Hl H; cbn in *; try discriminate; [auto|].
+  inversion H; subst. destruct (IH c b d ltac:(lia) H2) as [-> ->]. auto.
+Qed.
+
 Lemma nonce_input_injective w d1 h1 d2 h2 :
   0 <= d1 < 256 ^ Z.of_nat w -> 0 <= h1 < 256 ^ Z.of_nat w ->
   0 <= d2 < 256 ^ Z.of_nat w -> 0 <= h2 < 256 ^ Z.of_nat w ->
@@ -200,12 +211,6 @@ Lemma nonce_input_injective w d1 h1 d2 h2 :
   d1 = d2 /\ h1 = h2.
 Proof.
   intros Hd1 Hh1 Hd2 Hh2 H.
-  apply app_inj_tail_iff || idtac.
-  assert (Hl : length (int_to_octets w d1) = length (int_to_octets w d2)) by (rewrite !int_to_octets_length; reflexivity).
-  pose proof (f_equal (firstn w) H) as Hf. pose proof (f_equal (skipn w) H) as Hs.
-  rewrite <- (int_to_octets_length w d1) in Hf at 1. rewrite firstn_app_exact in Hf.
-  rewrite <- (int_to_octets_length w d2) in Hf at 1. rewrite firstn_app_exact in Hf.
-  rewrite <- (int_to_octets_length w d1) in Hs at 1. rewrite skipn_app_exact in Hs.
-  rewrite <- (int_to_octets_length w d2) in Hs at 1. rewrite skipn_app_exact in Hs.
-  split; eapply int_to_octets_inj; eassumption.
+  apply app_same_length_inj in H; [|rewrite !int_to_octets_length; reflexivity].
+  destruct H as [Ha Hb]. split; eapply int_to_octets_inj; eassumption.
 Qed.
